@@ -433,6 +433,13 @@ def extra(tier, seed, record):
             if len(items) < 3 * n:
                 items.append([m["target"], _text(m)])
     collect()
+    # models whose tables hold zeros of both signs (a constant potential has the forces -0.0, a cut-off tail the
+    # energies +0.0): how a zero is printed must not depend on which zero was formatted first in the process
+    for tgt, nr in (("DL_POLY", 8), ("LAMMPS", 6)):
+        head = "[Tabulation]\ntarget : %s\nnr : %d\ncutoff : 2.0\n\n[Pair]\n" % (tgt, nr)
+        items.append([tgt, head + "A-A : as.constant 5.0\n"])
+        items.append([tgt, head + "A-A : as.buck 1000.0 0.3 10.0 >=1.0 as.zero\n"])
+        items.append([tgt, head + "A-A : as.polynomial 0.0 -1.5 >=1.0 as.constant 0.0\n"])
     # all models in one batch per hash seed; a disagreement is re-examined model by model
     res = _run_hashseeds(items)
     bad = [i for i in range(len(items)) if len(set(tuple(res[s][str(i)]) for s in res)) != 1]
